@@ -2,7 +2,9 @@ package main
 
 import (
 	"fmt"
+	"go/constant"
 	"go/types"
+	"sort"
 	"strconv"
 	"strings"
 
@@ -400,6 +402,14 @@ func (e *Exec) byContract(st *State, fr *Frame, key string, ct *Contract, names 
 		e.byContr[fnKey(vf.Fn)+" (callback invariant)"] = true
 	}
 	pre := st.clone()
+	// metric counters the callee (transitively) increments are part of its frame
+	if cfn := e.prog.funcs[key]; cfn != nil {
+		for _, cn := range e.prog.countersTouched(cfn) {
+			k := "counter:" + cn
+			st.Ghost[k] = VInt{T: e.declare(fmt.Sprintf("%s~%s", k, callTag), BV64)}
+			st.Writes["ghost:"+k] = true
+		}
+	}
 	// havoc frame
 	if ct.AssignAll {
 		e.havocReachable(st, args, callTag)
@@ -930,4 +940,56 @@ func (e *Exec) appendOp(st *State, fr *Frame, args []Value, instr ssa.Instructio
 	// nil-ness: append(nil, nothing...) stays nil; ignore (len 0 case) => non-nil unless n==0 && s nil
 	ns.Nil = And(s.Nil, Eq(n, i64(0)))
 	return ns
+}
+
+
+// countersTouched: names of the metric counters a function may increment,
+// through static calls and the closures it creates (memoised).
+func (p *Prog) countersTouched(fn *ssa.Function) []string {
+	if p.counterMemo == nil {
+		p.counterMemo = map[*ssa.Function][]string{}
+	}
+	if r, ok := p.counterMemo[fn]; ok {
+		return r
+	}
+	set := map[string]bool{}
+	seen := map[*ssa.Function]bool{}
+	var walk func(f *ssa.Function, depth int)
+	walk = func(f *ssa.Function, depth int) {
+		if f == nil || seen[f] || depth > 8 {
+			return
+		}
+		seen[f] = true
+		for _, b := range f.Blocks {
+			for _, in := range b.Instrs {
+				switch x := in.(type) {
+				case *ssa.MakeClosure:
+					if cf, ok := x.Fn.(*ssa.Function); ok {
+						walk(cf, depth+1)
+					}
+				case ssa.CallInstruction:
+					c := x.Common()
+					if c.IsInvoke() {
+						if c.Method.Name() == "IncrementCounter" && len(c.Args) > 0 {
+							if k, ok := c.Args[0].(*ssa.Const); ok && k.Value != nil && k.Value.Kind() == constant.String {
+								set[constant.StringVal(k.Value)] = true
+							}
+						}
+						continue
+					}
+					if sf := c.StaticCallee(); sf != nil {
+						walk(sf, depth+1)
+					}
+				}
+			}
+		}
+	}
+	walk(fn, 0)
+	var out []string
+	for k := range set {
+		out = append(out, k)
+	}
+	sort.Strings(out)
+	p.counterMemo[fn] = out
+	return out
 }
